@@ -252,9 +252,9 @@ func families(n, k, e int, all bool) []posFamily {
 	return out
 }
 
-// checkDamaged decodes a damaged symbol directly or through the reader; exact: the text must
-// come back; !exact: an error or the exact text are both fine.
-func checkDamaged(l *mc.Local, sh shape, sym *az.Symbol, mods [][][2]int, tx text, c rcase, exact bool, keyBase, what string) {
+// checkDamaged decodes a symbol damaged within its capacity directly or through the reader: the
+// exact text must come back.
+func checkDamaged(l *mc.Local, sh shape, sym *az.Symbol, mods [][][2]int, tx text, c rcase, keyBase, what string) {
 	m := applyWords(sym, mods, c.Pos, c.Val)
 	var o outcome
 	via := ""
@@ -269,9 +269,6 @@ func checkDamaged(l *mc.Local, sh shape, sym *az.Symbol, mods [][][2]int, tx tex
 	l.Count(c.Sub+"/"+via+cls, 1)
 	if cls == "ok" {
 		l.Distinct("nontrivial", fmt.Sprint(c.Sub, sh, tx.Name, c.Via, c.Rot, c.Pos[0], len(c.Pos), c.Val[0], c.Family))
-		return
-	}
-	if !exact && cls != "wrong-text" && !strings.HasPrefix(cls, "panic") {
 		return
 	}
 	chk.Violation(keyBase+"/"+via+cls, fmt.Sprintf("%v (%d data + %d check words of %d bits, capacity %d) script %s, %s: %s, expected %q", sh, sym.DataWords, sym.CheckWords, sym.WordSize, sym.CheckWords/2, tx.Name, what, o.describe(), clip(tx.Want, 60)), c)
@@ -315,7 +312,7 @@ func runDamage() {
 					pos, val := mk(f, repl)
 					c := rcase{Sub: "damage", Compact: sh.Compact, Layers: sh.Layers, Text: tx.Name, Pos: pos, Val: val, Via: "decode", Family: f.name}
 					what := fmt.Sprintf("%d codewords (family %s) replaced by %s", t, f.name, replNames[repl])
-					checkDamaged(l, sh, sym, mods, tx, c, true, "C11/damage/t-errors/"+f.name, what)
+					checkDamaged(l, sh, sym, mods, tx, c, "C11/damage/t-errors/"+f.name, what)
 					if f.name == "spread" && repl == 1 {
 						rots := []int{sh.Layers % 4}
 						if !chk.Quick() {
@@ -323,7 +320,7 @@ func runDamage() {
 						}
 						for _, rot := range rots {
 							c.Via, c.Rot, c.Scale, c.Quiet = "reader", rot, 3, 2
-							checkDamaged(l, sh, sym, mods, tx, c, true, "C11/damage/t-errors/"+f.name, what+fmt.Sprintf(", read at scale 3 rotated %d deg", rot*90))
+							checkDamaged(l, sh, sym, mods, tx, c, "C11/damage/t-errors/"+f.name, what+fmt.Sprintf(", read at scale 3 rotated %d deg", rot*90))
 						}
 					}
 				}
@@ -380,7 +377,7 @@ func runDamage() {
 			for p := j.lo; p < j.hi; p++ {
 				for repl := 0; repl < 2; repl++ {
 					c := rcase{Sub: "damage", Compact: sh.Compact, Layers: sh.Layers, Text: tx.Name, Pos: []int{p}, Val: []int{replace(sym.Words[p], repl, sym.WordSize)}, Via: "decode", Family: "single"}
-					checkDamaged(l, sh, sym, mods, tx, c, true, "C11/damage/single/"+sh.cause(), fmt.Sprintf("codeword %d replaced by %s", p, replNames[repl]))
+					checkDamaged(l, sh, sym, mods, tx, c, "C11/damage/single/"+sh.cause(), fmt.Sprintf("codeword %d replaced by %s", p, replNames[repl]))
 				}
 			}
 		})
@@ -499,15 +496,12 @@ func replay() {
 		fmt.Println("ok:", checkDecode(l, sh, sym, tx))
 	case "reader":
 		fmt.Println("ok:", checkRead(l, sh, sym, tx, c.Rot, c.Scale, c.Quiet, c.Quiet >= 2))
-	case "damage", "beyond":
+	case "damage":
 		base := "C11/damage/t-errors/" + c.Family
 		if c.Family == "single" {
 			base = "C11/damage/single/" + sh.cause()
 		}
-		if c.Sub == "beyond" {
-			base = "C11/damage/beyond-capacity"
-		}
-		checkDamaged(l, sh, sym, sym.WordModules(), tx, c, c.Sub == "damage", base, fmt.Sprintf("codewords %v replaced by %v", c.Pos, c.Val))
+		checkDamaged(l, sh, sym, sym.WordModules(), tx, c, base, fmt.Sprintf("codewords %v replaced by %v", c.Pos, c.Val))
 	case "modemsg":
 		checkModeMsg(l, sh, tx, c)
 	}
